@@ -159,15 +159,17 @@ def run(chk, replay=None):
             lines.append("(entry %s %s)" % (rng.choice(["program", "witmod", "witjson", "type"]), quote(s)))
     lines = sorted(set(lines))
     for rel in ([False] if quick else [False, True]):
-        res = impl("total", lines, release=rel)
+        # the default main-thread stack (8 MiB), not the unlimited one the other checks use: stack overflows must show
+        res = impl("total", lines, release=rel, stack_kb=8192)
         for ln, x in zip(lines, res):
             kind = ln.split(" ")[1]
             chk.case(ln + str(rel), sample={"entry": kind, "text": parse_sx(ln)[-1][:160], "outcome": x[:40]})
             chk.count("%s.%s.%s" % ("release" if rel else "debug", kind, x.split(" ")[0][:5]))
             if x not in ("ok", "err"):
                 ds = declared_size(parse_sx(ln)[-1])
-                cls = "entry-point-abort" if ds >= 10 ** 8 else "entry-point-panic"
-                chk.violation({"class": cls, "what": "declared-size=%d %s: %s || %s" % (ds, kind, x[:160], parse_sx(ln)[-1][:400])},
+                nst = parse_sx(ln)[-1].count(";")
+                cls = "entry-point-abort" if ds >= 10 ** 8 else ("entry-point-stack" if "overflowed its stack" in x and nst >= 1000 else "entry-point-panic")
+                chk.violation({"class": cls, "what": "declared-size=%d statements=%d %s: %s || %s" % (ds, nst, kind, x[:160], parse_sx(ln)[-1][:400])},
                               {"cmd": "total", "line": ln, "implementation": x, "release_build": rel,
                                "broken": "a text entry point panicked / aborted instead of returning Ok or Err"})
     # ---- declared sizes / bounds far beyond what can be laid out: must be Err, not an abort (run one per process, memory-limited)
@@ -192,6 +194,29 @@ def run(chk, replay=None):
                 chk.violation({"class": "entry-point-panic", "what": "%s || %s" % (x[:100], ln[:300])},
                               {"cmd": "total", "line": ln, "implementation": x, "release_build": rel, "expected": "err",
                                "broken": "a hex literal against a byte-array type whose length does not fit twice into the machine word must be rejected (Err), not panic / be accepted"})
+    # long statement lists (bracket depth 1): recursion over the statements of a block — known finding D14.
+    # Probed with the unoptimised simc binary built from /repo (the harness itself is built with opt-level 1 and needs ten times more)
+    import subprocess
+    import tempfile
+    from checks.c19 import build_simc
+    simc = build_simc()
+    for n in (300, 1000, 6000):
+        t = "fn main() { %s }" % " ".join("assert!(jet::eq_32(%d, %d)); let v%d: u32 = dbg!(%d);" % (k, k, k, k) for k in range(n))
+        with tempfile.NamedTemporaryFile("w", suffix=".simf", dir=BUILD, delete=False) as tf:
+            tf.write(t)
+            path = tf.name
+        try:
+            p = subprocess.run(["bash", "-c", "ulimit -s 8192; exec \"$0\" \"$1\"", simc, path], stdout=subprocess.PIPE, stderr=subprocess.PIPE, timeout=900)
+        finally:
+            os.unlink(path)
+        err = p.stderr.decode("utf-8", "replace")
+        outcome = "ok" if p.returncode == 0 else ("err" if p.returncode == 1 else "CRASH exit=%d %s" % (p.returncode, err[-200:].replace("\n", " ")))
+        chk.case("simc long %d" % n, sample={"entry": "simc (program)", "statements": 2 * n, "outcome": outcome[:80]})
+        chk.count("long-block.%d.%s" % (2 * n, outcome.split(" ")[0][:5]))
+        if outcome not in ("ok", "err"):
+            chk.violation({"class": "entry-point-stack" if "overflowed its stack" in outcome else "entry-point-panic", "what": "declared-size=0 statements=%d %s" % (2 * n, outcome[:120])},
+                          {"program_head": t[:300], "statements": 2 * n, "implementation": outcome, "stack_kb": 8192, "binary": "simc (debug profile) built from /repo",
+                           "broken": "a program with a long statement list (bracket depth 1) overflows the 8 MiB stack instead of ending with Ok / Err"})
     for t in big:
         ln = "(entry program %s)" % quote(t)
         x = impl("total", [ln], shards=1, ulimit_v=4000000)[0]
